@@ -150,3 +150,10 @@ VARIANTS += [
       "            tempsys = copy(real_system)", "silent", "",
       "copy through a local"),
 ]
+
+VARIANTS += [
+    V("failed-case-breaks", O,
+      "            if not (0.0 <= z <= 1e100):\n                return 1e200",
+      "            if not (0.0 <= z <= 1e100):\n                break",
+      "fire", "D11.4", "seed C11-failed-case-breaks-instead-of-returning"),
+]
